@@ -408,8 +408,51 @@ def pil_backed_checks(rng, V, n):
     return done
 
 
+def shared_wcs_checks(rng, V, n):
+    """Two objects created with the SAME astropy WCS instance (a description and its image, or two
+    planes on one grid): an operation on the first must not change what the second reports, and the
+    second must then satisfy the property on its own."""
+    import numpy as np
+    done = 0
+    specs = gen_numeric(rng, n)
+    for spec in specs:
+        wobj = make_wcs(spec)
+        sa = dict(spec, desc=rng.random() < 0.5)
+        sb = dict(spec, desc=False)
+        A = build(sa, wobj)
+        B = build(sb, wobj)
+        wcs0 = B.wcs.deepcopy()
+        hdr0 = read_hdr(B.wcs)
+        sign0 = B.get_parity_sign()
+        rows0 = rows_of(B, sb)
+        opa = rng.choice(("flip", "ensure", "flip", "flip2"))
+        do_op(A, opa)
+        done += 1
+        case = dict(spec_json(sb), shared_with=("description" if sa["desc"] else "image"), first_op=opa)
+        hdr_mid, sign_mid = read_hdr(B.wcs), B.get_parity_sign()
+        if sign_mid != sign0 or any(hdr0[k] != hdr_mid[k] for k in hdr0) or rows_of(B, sb) != rows0:
+            why = [f"after {opa} on another object created with the same WCS instance, this image reports parity {sign_mid} "
+                   f"(was {sign0}) with its rows unchanged"]
+            # does it move pixels on the sky?  evaluate the statement on the untouched image
+            lo, bo = world(wcs0, [(0, 0), (spec["w"] - 1, spec["h"] - 1)])
+            ln, bn = world(B.wcs, [(0, 0), (spec["w"] - 1, spec["h"] - 1)])
+            sep = float(np.nanmax(ang_sep_deg(lo, bo, ln, bn)))
+            why.append(f"its pixels moved by up to {sep:.3e} deg on the sky without any operation on it")
+            V.disagreement("C16 on objects sharing one WCS instance: an operation on one object changed the other",
+                           case, "the other object is unchanged", dict(why=why, sign_before=sign0, sign_after=sign_mid), sep > 1e-9)
+            continue
+        opb = rng.choice(("flip", "ensure", "ensure2"))
+        do_op(B, opb)
+        why, _worst = property_fails(sb, opb, sign0, B.get_parity_sign(), rows_of(B, sb), B.shape, wcs0, B.wcs)
+        if why:
+            V.disagreement("C16 predicate on the second of two objects sharing one WCS instance", dict(case, second_op=opb),
+                           "sign negated, rows reversed, sky positions unchanged (1e-9 deg)", dict(why=why), True)
+    return done
+
+
 def run(ctx, V):
     warnings.simplefilter("ignore")
+    n_shared = shared_wcs_checks(common.rng_for(ctx["seed"], "C16shared"), V, 60 if ctx["tier"] == "quick" else 500)
     n_pil = pil_backed_checks(common.rng_for(ctx["seed"], "C16pil"), V, 60 if ctx["tier"] == "quick" else 400)
     rng = common.rng_for(ctx["seed"], "C16")
     tier = ctx["tier"]
@@ -492,7 +535,7 @@ def run(ctx, V):
     samples = [dict(spec=spec_json(s), sign0=o["sign0"], sign1=o["sign1"], rows1=(o["rows1"] or [])[:6],
                     crpix2_after=float(o["hdr1"]["crpix2"]), max_sky_shift_deg=o["worst"])
                for s, o in list(zip(exact, obs))[:3]]
-    return dict(evaluations=len(exact) + n_numeric + n_files, distinct_nontrivial=len(nontrivial),
+    return dict(evaluations=len(exact) + n_numeric + n_files + n_pil + n_shared, distinct_nontrivial=len(nontrivial),
                 rule="exact stream: Image / ImageDescription (float and RGB data) with WCS given as CD, CDELT+PC or CDELT only, "
                      "entries k/2^m (|k|<=31), CRPIX inside / outside / far from / at the origin of images of height 1-100, "
                      "operation flip, flip twice, ensure_negative, ensure_negative twice; compared exactly with the model in Coq; "
@@ -501,5 +544,6 @@ def run(ctx, V):
                      "corner / centre / outside pixels); non-trivial = distinct case with off-diagonal terms or CRPIX outside "
                      "the image (all numeric cases)",
                 exact_cases=len(exact), numeric_cases=n_numeric, test_file_cases=n_files,
+                pil_backed_cases=n_pil, shared_wcs_instance_cases=n_shared,
                 max_sky_shift_deg_exact=worst_all, max_sky_shift_deg_numeric=worst_num,
                 input_histogram=hist, samples=samples)
